@@ -31,7 +31,7 @@ PROPS['C13'] = dict(
                  'determinism of identically driven instances in one process (C14) with constant-filled fresh heap memory'],
     stages=[
         dict(name='formats', variant='asan', harness='c13_audio.cpp', quick=6000, thorough=80000, budget=30, opts=dict(units=200000)),
-        dict(name='memcheck', variant='plain-d', harness='c13_audio.cpp', quick=64, thorough=2000, budget=1200, wall=3000, opts=dict(units=200000),
+        dict(name='memcheck', variant='plain-d', harness='c13_audio.cpp', quick=64, thorough=2000, budget=150, wall=2400, opts=dict(units=200000),
              wrapper=['valgrind', '-q', '--error-exitcode=79', '--exit-on-first-error=yes', '--track-origins=no', '--leak-check=no']),
     ],
 )
